@@ -333,7 +333,7 @@ func replaceJSONLeaves(rt *rapid.T, doc string) string {
 
 func TestC06(t *testing.T) {
 	h := hh.Start(t, "C06",
-		"cases = well-formed (schema, destination) pairs from the builder (all node kinds incl. Preprocess and Custom, >8 fields, field names up to 64 bytes) x inputs: Go values in which random subtrees of a valid input are replaced by wild values from a registry of ~120 (named and unnamed maps of 20 element types, nil/typed-nil values, pointer chains to depth 4, structs with exported / unexported / embedded / pointer / func / chan fields, every numeric width incl. NaN/Inf/extremes, complex, json.Number, []byte, invalid UTF-8, 200 kB strings, errors), whole-wild inputs, pointers to valid inputs; JSON text (valid, {}, non-objects, truncated, deeply nested, duplicate keys, huge numbers, leaves replaced); form/query strings from hostile fragments; environment values; non-trivial = the input contains a value outside {string,int,float64,bool,map[string]any,[]any,time.Time} or comes through a textual front end; distinct = FNV-1a of the case JSON",
+		"cases = well-formed (schema, destination) pairs from the builder (all node kinds incl. Preprocess and Custom, >8 fields, field names up to 64 bytes) x inputs: Go values in which random subtrees of a valid input are replaced by wild values from a registry of ~120 (named and unnamed maps of 20 element types, nil/typed-nil values, pointer chains to depth 4, structs with exported / unexported / embedded / pointer / func / chan fields, every numeric width incl. NaN/Inf/extremes, complex, json.Number, []byte, invalid UTF-8, 200 kB strings, errors), whole-wild inputs, pointers to valid inputs; JSON text (valid, {}, non-objects, truncated, deeply nested, duplicate keys, huge numbers, leaves replaced); form/query strings from hostile fragments; environment values; Custom[T] schemas for 20 shapes of T at 5 positions x the registry; non-trivial = the input contains a value outside {string,int,float64,bool,map[string]any,[]any,time.Time} or comes through a textual front end; distinct = FNV-1a of the case JSON",
 		"oracle: recover() around Parse - any panic is a violation (harness callbacks are nil-safe and never panic); termination is guarded by the driver's time limit (exit 2)",
 		"wild values are finite and acyclic; types outside the registry (cgo handles, unsafe.Pointer) are not generated")
 	defer h.Finish()
